@@ -3,10 +3,13 @@
 Implementation side: harness/go/root/zz_verif_election_test.go drives real electionManager
 objects on one real single-replica NodeHost/DB, turn by turn, following generated schedules.
 Monitors (the property, evaluated on what the implementation did):
-  holder_only   a server that is leader after its own turn => the record names it right after that turn
+  holder_only   a server that is leader after its own turn => the turn's first lookup, or its read-back, named it
   step_down     a leader whose turn finds another holder / cannot read => follower after the turn, nothing written
-  displacement  the holder changes only in the mover's turn, to the mover's id, and a holder X is displaced
-                only by a follower that had seen (X, same tick) unchanged more than deadLeaderMinRound times
+  displacement  the record changes only to (mover's id, turn's tick) or to a foreign write injected by the harness, and a
+                holder X is displaced only by a follower that had seen (X, same tick) unchanged more than deadLeaderMinRound times
+  cas_exclusive a competitor's write lands between the turn's lookup and its CAS (harness-injected, operation-granularity
+                interleaving): unless the competitor is the holder the turn read (or the mover), the turn's CAS is rejected,
+                the record stays the competitor's and the mover does not become leader by that campaign
   one_lasting   of the servers that took a turn since the holder last changed, only the holder is leader
                 (a displaced leader may believe for as long as it is paused, never longer)
   stability     round-fair, fault-free, leader renewing every round => no other leader, no campaign, static <= 1
@@ -21,7 +24,7 @@ import json, os
 from vlib import *
 
 KINDS = {"r": 0, "s": 1, "p": 2, "c": 3}
-NQUICK, NTHOROUGH = 1000, 24000
+NQUICK, NTHOROUGH = 800, 16000
 CONSTS = {}   # constants printed by the executor (read from the built code)
 
 
@@ -632,6 +635,15 @@ def model_check(ck, cases, obs_by_name, thr, tag):
     """returns (set of names that disagree) or None on evaluation failure"""
     if not cases:
         return set()
+    if len(cases) > 1024:
+        # keep each generated .v file small (elaborating the literals dominates, ~4 ms per turn)
+        bad = set()
+        for k in range(0, len(cases), 1024):
+            b = model_check(ck, cases[k:k + 1024], obs_by_name, thr, "%s%dx" % (tag, k // 1024))
+            if b is None:
+                return None
+            bad |= b
+        return bad
     nsh = min(16, max(1, len(cases) // 12))
     shards = [cases[i::nsh] for i in range(nsh)]
     jobs = []
